@@ -133,7 +133,7 @@ def scn_fold(ctx):
 ASSUMPTIONS = ["X: up to 3 inputs, all completion orders (symbolic permutation), symbolic int/str values; S: 3 inputs, values symbolic in [-1,1], two completer threads, optional output cancel"]
 BOUNDS_TEXT = {"quick": "X: 9 contracts (90 s each); S: n=3, P<=1", "thorough": "X: 400 s; S: P<=2"}
 MUST_REACH = {"*": ["fold-checked", "pending-cancel-checked"]}
-BUDGET = {"quick": 120.0, "thorough": 900.0}
+BUDGET = {"quick": 120.0, "thorough": 600.0}
 
 
 def plan(tier, seed):
